@@ -148,6 +148,7 @@ func runC05(c *Ctx) {
 	add("ALT", altL, "", profP0, 5)
 	add("ALT", altL, "i", profP0i, 4)
 	add("ALT", altL, "2", profP0, 4)
+	add("ALTB", altBranchFamily(false), "", profP0, 4)
 	add("LOOP", loopF, "", profP0, 4)
 	add("LOOK", lookF, "", profP0, 4)
 	add("ANCH<=4", anch, "", anchProf, 4)
@@ -161,6 +162,7 @@ func runC05(c *Ctx) {
 		add("SEQ k<=3 anchored", seqFamily(3, true), "", profP0, 5)
 		add("SEQ k<=3", seq3, "m", profP6, 4)
 		add("ALT full", altFamily(true), "", profP0, 5)
+		add("ALTB full", altBranchFamily(true), "", profP0, 5)
 		add("LOOP", loopF, "", profP0, 5)
 		add("LOOP", loopF, "m", profP6, 4)
 		add("LOOK", lookF, "", profP0, 5)
